@@ -46,6 +46,16 @@ class Ctx:
         self.swap_std = swap_std
 
 
+def _gunzip_if_svgz(path, data):
+    """The gzip header carries mtime and file name: .svgz output is compared after gunzipping."""
+    if path.lower().endswith('.svgz'):
+        try:
+            return gzip.decompress(data)
+        except Exception:  # truncated by a fault: compare raw
+            return data
+    return data
+
+
 def _exc(ex):
     return {'exc': [type(ex).__name__, str(ex)]}
 
@@ -154,7 +164,7 @@ def execute_op(segno, spec, ctx):
             files = {p: fs.files[p] for p in fs.files if p not in before and spec['name'] in p}
             return {'ok': {'status': pr['status'], 'stdout': sha(''.join(ctx.stdout.parts[mark_o:]).encode('utf-8')),
                            'stderr': ''.join(ctx.stderr.parts[mark_e:])[:300], 'traceback': pr['traceback'],
-                           'files': {p: sha(blank(v)) for p, v in sorted(files.items())},
+                           'files': {p: sha(blank(_gunzip_if_svgz(p, v))) for p, v in sorted(files.items())},
                            'closed': all(fs.complete(p) for p in files)}}, None
         raise core.HarnessError('unknown op %r' % op)
     except core.HarnessError:
@@ -292,3 +302,28 @@ def gen_cli(rng, name, allow_bad=True):
         argv.append('--compact')
     argv.append(content)
     return {'op': 'cli', 'argv': core.enc(argv), 'name': name}
+
+
+def vary_make(rng, earlier, fresh):
+    """A make-operation related to an earlier one -- history dependence shows on related calls: the same call
+    again, the same content with other options, the content as part of a list, the first part of a list alone."""
+    new = dict(fresh)
+    how = rng.choice(('repeat', 'repeat', 'same_content', 'as_list', 'first_part', 'same_kw'))
+    if earlier['fn'].startswith('helpers.') or fresh['fn'].startswith('helpers.'):
+        how = 'repeat'
+    content = core.dec(earlier['content']) if earlier['content'] is not None else None
+    if how == 'repeat':
+        new = dict(earlier, id=fresh['id'])
+    elif how == 'same_content':
+        new['content'] = earlier['content']
+    elif how == 'same_kw':
+        new['kw'] = earlier['kw']
+        new['fn'] = earlier['fn']
+    elif how == 'as_list' and isinstance(content, str) and content:
+        k = rng.randint(1, len(content))
+        new = dict(earlier, id=fresh['id'], content=core.enc([content[:k], content[k:]] if content[k:] else [content, content]))
+    elif how == 'first_part' and isinstance(content, list) and content:
+        new = dict(earlier, id=fresh['id'], content=core.enc(content[0]))
+    else:
+        new = dict(earlier, id=fresh['id'])
+    return new
